@@ -13,13 +13,23 @@ class Prop:
     thorough_runs = 4000000
     rule = ("seeded (start, stop in {None,-9..9}, step in {None,1..8}, form in {ops.slice, source[a:b:c], source[i]}) over one generated "
             "timeline of 0-7 elements (cold/hot/sync; completion, error at any position, or no terminal); emitted values and terminal "
-            "compared with list(source)[start:stop:step]; optionally the same sliced observable is subscribed a second time. Distinct = (form, start, stop, step, length, terminal, observed); non-trivial = the "
+            "compared with list(source)[start:stop:step]; optionally the same sliced observable is subscribed a second time; 6% of the runs slice a Subject whose subscriber hands it the next value from inside "
+            "every on_next (re-entrant emission). Distinct = (form, start, stop, step, length, terminal, observed); non-trivial = the "
             "expected slice is non-empty or the source errors.")
     assumptions = ["essentially a pure function of the input; the simulated dimensions are the error position, the missing terminal and the source kind",
                    "an error is required to pass through unless the slice was already complete (non-negative start and stop, stop elements seen)"]
     stubs = []
 
     def generate(self, rng, tier):
+        if rng.random() < 0.06:
+            # the subscriber hands the next value to the sliced Subject from inside every on_next it receives
+            rnd2 = lambda: rng.choice([None, None] + list(range(-3, 8)))  # noqa: E731
+            form = rng.choice(["ops", "getitem", "getitem", "index"])
+            sc = {"clock": "test", "sources": [], "form": form, "start": rnd2(), "stop": rnd2(), "step": rng.choice([None, 1, 1, 2, 3]),
+                  "feedback": list(range(rng.randrange(1, 9))), "sub_t": 205, "horizon": 600}
+            if form == "index":
+                sc["start"] = rng.randrange(-3, 8)
+            return sc
         ctx = catalog.Ctx(rng, hot_p=0.4, falsy_p=0.2, sync_p=0.3)
         ctx.new_source(maxn=7)
         spec = ctx.sources[0]
@@ -40,7 +50,70 @@ class Prop:
             sc["sub2_t"] = 205 + off  # the same sliced observable is subscribed a second time
         return sc
 
+    def execute_feedback(self, sc):
+        from reactivex.subject import Subject
+        out = Outcome()
+        w = vt.World(sc["clock"])
+        src = Subject()
+        a, b, c = sc["start"], sc["stop"], sc["step"]
+        if sc["form"] == "ops":
+            obs = src.pipe(ops.slice(a, b, c))
+        elif sc["form"] == "getitem":
+            obs = src[a:b:c]
+        else:
+            a = 0 if a is None else a
+            obs = src[a]
+            b, c = a + 1, 1
+        vals = sc["feedback"]
+        rec = vt.Recorder(w, "r", follow=False)
+        sent = [0]
+
+        closed = [False]
+
+        def feed(_v=None):
+            if sent[0] < len(vals) and not closed[0]:
+                sent[0] += 1
+                src.on_next(vals[sent[0] - 1])
+
+        def complete():
+            closed[0] = True
+            src.on_completed()
+
+        rec.on_each = feed
+        T = sc["sub_t"] + 10
+        w.at(sc["sub_t"], lambda: rec.subscribe(obs))
+        w.at(T, feed)
+        w.at(T + 10, complete)
+        w.run(sc["horizon"])
+        # what reaches the subscriber before the completion is what the slice has decided by then: only slices with non-negative
+        # start and stop emit before the end; every element that arrives makes the subscriber hand over one more value
+        early = (a is None or a >= 0) and (b is None or b >= 0)
+        k = 1 if vals else 0
+        for _ in range(len(vals) + 2):
+            k2 = min(len(vals), 1 + (len(vals[:k][a:b:c]) if early else 0)) if vals else 0
+            if k2 == k:
+                break
+            k = k2
+        want = [vt.vkey(v) for v in vals[:k][a:b:c]]
+        got = models.norm(rec.events_kv())
+        gvals = [g[2] for g in got if g[1] == "N"]
+        out.digest = ("feedback", sc["form"], a, b, c, len(vals), tuple(got))
+        out.sim_time = sc["horizon"]
+        out.nontrivial = bool(want)
+        out.probes["feedback_mode"] += 1
+        g = vt.grammar_violation(rec)
+        if g:
+            out.bad("grammar", g)
+        if w.escaped:
+            out.bad("escaped", repr(w.escaped[0][2:]))
+        desc = "feedback form=%s [%r:%r:%r] values=%s" % (sc["form"], sc["start"], sc["stop"], sc["step"], vals)
+        if sent[0] != k or gvals != want or [g_[1] for g_ in got if g_[1] in "CE"] != ["C"]:
+            out.bad("slice-mismatch", "%s: the subscriber handed over %d values and received %s; list slicing says %d values and %s then C" % (desc, sent[0], got, k, want))
+        return out
+
     def execute(self, sc):
+        if "feedback" in sc:
+            return self.execute_feedback(sc)
         out = Outcome()
         w = vt.World(sc["clock"])
         vt.make_sources(w, sc["sources"])
